@@ -23,10 +23,13 @@ def with_writes(rng, kind, counter, density=0.6, redirects=False):
 
     def w():
         counter[0] += 1
-        return {'a': 'write', 'tok': 'QZ%dQ' % counter[0],
-                'stream': rng.choice(['stdout', 'stdout', 'stderr']),
-                'nl': rng.random() < 0.7,
-                'via': rng.choice(['text', 'text', 'text', 'buffer'])}
+        a = {'a': 'write', 'tok': 'QZ%dQ' % counter[0],
+             'stream': rng.choice(['stdout', 'stdout', 'stderr']),
+             'nl': rng.random() < 0.7,
+             'via': rng.choice(['text', 'text', 'text', 'buffer'])}
+        if a['via'] == 'buffer' and rng.random() < 0.3:
+            a['rawhex'] = rng.choice(['fffe', 'c3', '80', 'edA080'.lower()])   # not valid UTF-8
+        return a
 
     def sprinkle(actions):
         out = []
